@@ -659,21 +659,39 @@ def gen_trystate(rng):
     return {"cap": cap, "payload": rng.choice(["w1", "b3", "h4", "u8", "p5", "z0"]), "procs": procs, "strat": st}
 
 
-def gen_discrace(rng):
+DISC_KINDS_S = ["repoll", "repoll2", "sync", "timed", "timed_exp_to", "timed_exp_opt"]
+DISC_KINDS_R = ["repoll", "repoll2", "sync", "timed", "timed_exp_to", "stream"]
+DISC_EVENTS = ["last_drop", "last_drop2", "close", "close_same"]
+
+
+def disc_combos():
+    return [(sd, k, ev) for sd in "sr" for k in (DISC_KINDS_S if sd == "s" else DISC_KINDS_R) for ev in DISC_EVENTS]
+
+
+def gen_discrace(rng, combo=None):
     """C11 / C10: operations that are already waiting (parked, timed, or pending futures about to be polled again with
     a different waker) race with the event that disconnects or closes the channel: the waiters' next step and the
     drop of the last handle of the other side / close() start in the same phase (used under a freeze sweep, so that
     every cut point of the waiter's re-poll or wake-up path meets the complete disconnecting critical section)."""
     cap = rng.choice([0, 0, 1, 2])
-    side = rng.choice("ssr")
+    side = combo[0] if combo else rng.choice("ssr")
     other = "r" if side == "s" else "s"
     nw = rng.choice([1, 1, 2])
-    event = rng.choice(["last_drop", "last_drop", "last_drop2", "close", "close_same"])
+    event = combo[2] if combo else rng.choice(["last_drop", "last_drop", "last_drop2", "close", "close_same"])
     wside_h = rng.choice(["s", "a"]) + side
     other_h = rng.choice(["s", "a"]) + other
     procs = []
+    expiring = [False]
     for i in range(nw):
-        kind = rng.choice(["repoll", "repoll", "repoll2", "sync", "timed", "stream"] if side == "r" else ["repoll", "repoll", "repoll2", "sync", "timed"])
+        kind = rng.choice(["repoll", "repoll", "repoll2", "sync", "timed", "timed_exp", "timed_exp", "stream"] if side == "r"
+                          else ["repoll", "repoll", "repoll2", "sync", "timed", "timed_exp", "timed_exp"])
+        if combo and i == 0:
+            kind = combo[1]
+        topt = None
+        if kind.startswith("timed_exp"):
+            topt = {"timed_exp_to": "send_timeout", "timed_exp_opt": "send_option_timeout"}.get(kind)
+            kind = "timed_exp"
+            expiring[0] = True
         m = i + 1
         pre = []
         if side == "s" and i == 0:
@@ -690,7 +708,9 @@ def gen_discrace(rng):
         elif kind == "sync":
             ops = [{"op": "send", "h": 0, "m": m}] if side == "s" else [{"op": rng.choice(["recv", "iter_next"]), "h": 0}]
         else:
-            ops = [{"op": rng.choice(["send_timeout", "send_option_timeout"]), "h": 0, "m": m, "d": 400}] if side == "s" else [{"op": "recv_timeout", "h": 0, "d": 400}]
+            # timed_exp: the deadline expires in the race phase (the clock only ticks from phase 1 on, then on every read)
+            d = 2 if kind == "timed_exp" else 400
+            ops = [{"op": topt or rng.choice(["send_timeout", "send_option_timeout"]), "h": 0, "m": m, "d": d}] if side == "s" else [{"op": "recv_timeout", "h": 0, "d": d}]
         procs.append({"phase": 0, "handles": [wside_h], "ops": pre + ops})
     b = [{"op": "barrier", "ph": 1}]
     if event == "last_drop":
@@ -702,6 +722,8 @@ def gen_discrace(rng):
     else:
         procs.append({"phase": 0, "handles": [wside_h, other_h], "ops": b + [{"op": "close", "h": 0}]})
     st = {"spin_bias": 0.995, "p_switch": rng.choice([0.05, 0.2]), "q_tick": 0.0, "tick_phase": 9}
+    if expiring[0]:
+        st.update({"tick_phase": 1, "tick_after": 0})
     return {"cap": cap, "payload": rng.choice(["w1", "b3", "h4", "u8", "p5"]), "procs": procs, "strat": st}
 
 
